@@ -522,6 +522,7 @@ void ClipperOffset::DoGroupOffset(Group& group)
 			continue;
 		} // end of offsetting a single point
 
+		end_type_ = group.end_type;
 		if ((pathLen == 2) && (group.end_type == EndType::Joined))
 			end_type_ = (group.join_type == JoinType::Round) ?
 			  EndType::Round :
